@@ -584,24 +584,77 @@ def bound_names_before(toks, lo, hi):
     return names
 
 def free_vars(frag, candidates):
-    used = []
+    """names from `candidates` that occur in the fragment outside the scope of any local binder of the same name"""
+    m = match_table(frag)
+    n = len(frag)
+    def enclosing_close(i):
+        # index of the close token of the innermost group containing i (n if none)
+        best = n
+        for o, c in m.items():
+            if frag[o].k == "o" and o < i < c and c < best: best = c
+        return best
+    def next_block_after(i, stop_at=("=>",)):
+        # the `{...}` group that follows position i (after an optional `=>`), else up to the next `,` at depth 0
+        j = i
+        while j < n and frag[j].s not in ("{",):
+            if frag[j].k == "o": j = m[j]
+            if frag[j].s in (",", ";") : return (i, j)
+            j += 1
+        if j >= n: return (i, n)
+        return (j, m[j])
+    scopes = {}   # name -> list of (lo, hi) token ranges in which the name is locally bound
     for i, t in enumerate(frag):
-        if t.k == "id" and t.s in candidates and (i == 0 or frag[i - 1].s not in (".", "::")) and (i + 1 >= len(frag) or frag[i + 1].s != "::"):
-            if t.s not in used: used.append(t.s)
-    # names re-bound by a `let` inside the fragment before any use are not free; keep simple: a name is
-    # dropped if its first occurrence is directly after `let` / `let mut`
+        if t.k != "id" or t.s not in candidates: continue
+        if i > 0 and frag[i - 1].s in (".", "::"): continue
+        prev = frag[i - 1].s if i > 0 else ""
+        prev2 = frag[i - 2].s if i > 1 else ""
+        nxt = frag[i + 1].s if i + 1 < n else ""
+        binder = None
+        if prev == "let" or (prev == "mut" and prev2 == "let"):
+            # scope: from the end of the statement to the end of the enclosing block
+            j = i
+            while j < n and frag[j].s != ";":
+                if frag[j].k == "o": j = m[j]
+                j += 1
+            binder = (j, enclosing_close(i))
+        elif prev == "for" and nxt == "in":
+            j = i
+            while frag[j].s != "{":
+                if frag[j].k == "o": j = m[j]
+                j += 1
+            binder = (j, m[j])
+        elif prev == "(" and i > 1 and frag[i - 2].k == "id" and frag[i - 2].s[0].isupper() and nxt == ")" and i + 2 < n and frag[i + 2].s in ("=>", "="):
+            binder = next_block_after(i + 2)
+        elif prev in ("{", ",") and nxt in (",", "}"):
+            # shorthand field in a struct pattern `Name { a, b }` that is followed (after closing delimiters) by `=` or `=>`
+            c = enclosing_close(i)
+            o = m[c] if c < n else -1
+            if o > 0 and frag[o].s == "{" and frag[o - 1].k == "id" and frag[o - 1].s[0].isupper():
+                j = c + 1
+                while j < n and frag[j].s == ")": j += 1
+                if j < n and frag[j].s in ("=", "=>"):
+                    # pattern of a let-else / select arm / match arm: scope = the arm or statement body that follows
+                    k = j + 1
+                    if frag[j].s == "=":
+                        while k < n and frag[k].s != "=>" and frag[k].s != ";" and frag[k].s != "{":
+                            if frag[k].k == "o": k = m[k]
+                            k += 1
+                    binder = next_block_after(k)
+        if binder:
+            scopes.setdefault(t.s, []).append(binder)
     res = []
-    for nm in used:
-        for i, t in enumerate(frag):
-            if t.k == "id" and t.s == nm and (i == 0 or frag[i - 1].s not in (".", "::")):
-                if i > 0 and (frag[i - 1].s in ("let", "for") or (frag[i - 1].s == "mut" and i > 1 and frag[i - 2].s == "let")):
-                    pass
-                elif i > 1 and frag[i - 1].s == "(" and frag[i - 2].k == "id" and frag[i - 2].s[0].isupper() and i + 2 < len(frag) \
-                        and frag[i + 1].s == ")" and frag[i + 2].s in ("=>", "="):
-                    pass    # bound by a tuple-struct pattern: `Err(err) =>`, `if let Some(x) =`
-                else:
-                    res.append(nm)
-                break
+    for i, t in enumerate(frag):
+        if t.k != "id" or t.s not in candidates or t.s in res: continue
+        if i > 0 and frag[i - 1].s in (".", "::"): continue
+        if i + 1 < n and frag[i + 1].s == "::": continue
+        # a binder occurrence itself is not a use
+        prev = frag[i - 1].s if i > 0 else ""
+        if prev in ("let", "for") or (prev == "mut" and i > 1 and frag[i - 2].s == "let"): continue
+        inside = any(lo <= i <= hi for lo, hi in scopes.get(t.s, []))
+        is_pat = (prev == "(" and i > 1 and frag[i - 2].k == "id" and frag[i - 2].s[0].isupper() and i + 2 < n and frag[i + 1].s == ")" and frag[i + 2].s in ("=>", "="))
+        is_short = prev in ("{", ",") and i + 1 < n and frag[i + 1].s in (",", "}") and any(lo > i for lo, hi in scopes.get(t.s, []))
+        if not inside and not is_pat and not is_short:
+            res.append(t.s)
     return res
 
 # ------------------------------------------------------------------------------------------------
@@ -768,3 +821,97 @@ def r6_select(toks, stats, env="env"):
         new += T("} }")
         toks[s:cb + 1] = new
         stats["R6.select"] = stats.get("R6.select", 0) + 1
+
+# ------------------------------------------------------------------------------------------------
+# R14: outline. `async { ... }` blocks that are extracted as items of their own are replaced by a call of that item
+# ------------------------------------------------------------------------------------------------
+def r14_outline(toks, stats, outlines):
+    """outlines: list of (anchor_text, call_text): the first remaining `anchor_text {...}` has its block (and the last token of the
+    anchor, `async`) replaced by call_text"""
+    for anchor, call in outlines:
+        m = match_table(toks)
+        p = pat(anchor)
+        i = find_seq(toks, p)
+        if i < 0: raise ExtractError("R14: outline anchor lost: %r" % anchor)
+        b = i + len(p)
+        if toks[b].s == "move": b += 1
+        if toks[b].s != "{": raise ExtractError("R14: %r is not followed by a block" % anchor)
+        new = T(call)
+        for x in new: x.line = toks[i].line
+        toks[i + len(p) - 1: m[b] + 1] = new
+        stats["R14.outline"] = stats.get("R14.outline", 0) + 1
+    return toks
+
+# ------------------------------------------------------------------------------------------------
+# R6b: select! with guards, refutable patterns and an else arm (two branches):
+#   select! { P0 = F0, if G0 => B0  P1 = F1 => B1  else => E }
+# tokio semantics: guards are evaluated first; the enabled futures are polled until one completes; if its pattern does not
+# match, that branch is disabled and the others keep being polled; if no branch is (left) enabled the else arm runs, and
+# without an else arm select! panics.
+# ------------------------------------------------------------------------------------------------
+def r6b_select(toks, stats, env="env", fused=()):
+    m = match_table(toks)
+    s = find_seq(toks, ["select", "!", "{"])
+    if s < 0: return toks
+    ob = s + 2
+    cb = m[ob]
+    arms = []
+    else_body = None
+    k = ob + 1
+    while k < cb:
+        if toks[k].s == "else" and toks[k + 1].s == "=>":
+            k += 2
+            if toks[k].s != "{": raise ExtractError("R6b: else arm must be a block")
+            else_body = toks[k:m[k] + 1]; k = m[k] + 1
+            if k < cb and toks[k].s == ",": k += 1
+            continue
+        p0 = k
+        while toks[k].s != "=":
+            if toks[k].k == "o": k = m[k]
+            k += 1
+        patt = toks[p0:k]; k += 1
+        f0 = k; guard = None; fut = None
+        while toks[k].s != "=>":
+            if toks[k].k == "o": k = m[k]
+            if toks[k].s == "," and toks[k + 1].s == "if":
+                fut = toks[f0:k]; g0 = k + 2
+                while toks[k].s != "=>":
+                    if toks[k].k == "o": k = m[k]
+                    k += 1
+                guard = toks[g0:k]
+                break
+            k += 1
+        if fut is None: fut = toks[f0:k]
+        k += 1
+        if toks[k].s != "{": raise ExtractError("R6b: arm body must be a block")
+        body = toks[k:m[k] + 1]; k = m[k] + 1
+        if k < cb and toks[k].s == ",": k += 1
+        arms.append((patt, fut, guard, body))
+    if len(arms) != 2: raise ExtractError("R6b: exactly two branches supported, found %d" % len(arms))
+    if else_body is None:
+        else_body = T("{ vx_select_panics(); }")   # `requires false`: reaching it is a failed obligation
+    def irrefutable(patt):
+        t = [x.s for x in patt]
+        return t == ["(", ")"] or (len(t) == 1 and patt[0].k == "id" and t[0][0].islower())
+    def nolines(ts):
+        ts = [x.copy() for x in ts]
+        for x in ts: x.line = None
+        return ts
+    def arm_code(i, fallback, keep_lines):
+        patt, fut, guard, body = arms[i]
+        cp = (lambda ts: [x.copy() for x in ts]) if keep_lines else nolines
+        if i in fused:
+            return cp(body)
+        if irrefutable(patt):
+            return T("{ let") + cp(patt) + T("=") + cp(fut) + T(";") + cp(body) + T("}")
+        return T("{ match") + cp(fut) + T("{") + cp(patt) + T("=>") + cp(body) + T(", _ =>") + fallback + T("} }")
+    def guard_toks(i):
+        return [x.copy() for x in arms[i][2]] if arms[i][2] is not None else T("true")
+    # after branch i was disabled by a pattern mismatch: the other one if it is enabled, else the else arm
+    fb0 = T("{ if vx_g1") + arm_code(1, nolines(else_body), False) + T("else") + nolines(else_body) + T("}")
+    fb1 = T("{ if vx_g0") + arm_code(0, nolines(else_body), False) + T("else") + nolines(else_body) + T("}")
+    new = T("{ let vx_g0 =") + guard_toks(0) + T("; let vx_g1 =") + guard_toks(1) + T("; let vx_first = vx_select_order(vx_g0, vx_g1);")
+    new += T("if vx_first == 0") + arm_code(0, fb0, True) + T("else if vx_first == 1") + arm_code(1, fb1, True) + T("else") + [x.copy() for x in else_body] + T("}")
+    toks[s:cb + 1] = new
+    stats["R6b.select"] = stats.get("R6b.select", 0) + 1
+    return toks
